@@ -138,7 +138,7 @@ def run(ctx: Ctx):
     n = 36 if ctx.tier == 'quick' else 200
     i = 0
     for cs in cases(ctx, 'c07', n):
-        pname, over = MC.PROFILES[i % len(MC.PROFILES)]
+        pname, over = MC.profiles(ctx.tier)[i % len(MC.profiles(ctx.tier))]
         i += 1
         if pname == 'mixed_core':
             continue
